@@ -30,6 +30,9 @@ def programs(ctx):
         out.append((("bench",) + cid, ("read", spec, 0)))
         for k in (1, 2, 3):
             out.append((("bench",) + cid + ("dff", k), ("read", spec, k)))
+    for t in ("and", "nand", "or", "nor", "xor", "xnor"):
+        for k, pat in enumerate((["a", "a"], ["a", "a", "a"], ["a", "b", "a"], ["a", "a", "a", "a"], ["b", "a", "b", "b"], ["a", "b", "b", "a", "a"])):
+            out.append((("benchrep", t, k), ("repeat", t, pat)))
     for cid, spec in base + F.f_rand(ctx.seed + 5, 10 if ctx.quick else 60, consts=True):
         A = Net.from_spec(spec)
         if A.bbs or A.has_x() or not A.inputs():
@@ -143,9 +146,14 @@ def run(ctx):
     ctx.functions(cgio.bench_to_circuit, cgio.circuit_to_bench)
     for cid, p in ctx.cases(programs(ctx)):
         rng = random.Random(f"c15-{ctx.seed}-{cid}")
-        if p[0] == "read":
-            _, spec, ndff = p
-            ast = make_ast(spec, ndff, rng)
+        if p[0] in ("read", "repeat"):
+            if p[0] == "repeat":
+                _, t, pat = p
+                spec = {"name": f"rep_{t}"}
+                ast = {"inputs": ["a", "b"], "outputs": ["y", "z"], "gates": [("y", t, list(pat)), ("w", "not", ["a"]), ("z", t, ["w"] + list(pat) + ["w"])], "dffs": []}
+            else:
+                _, spec, ndff = p
+                ast = make_ast(spec, ndff, rng)
             E = ref_net(ast, spec["name"])
             for layout in range(6) if ctx.quick else range(24):
                 text = render(ast, layout, random.Random(f"{cid}-{layout}"), spec["name"])
